@@ -26,10 +26,6 @@ def bandSq (maxabs : Int) : Int × Int :=
   let num := 9 * 2^39 + maxabs
   (4 * num * num, 2^82)
 
-/-- all closed edges of a path list, tagged with (path index, edge index, path length) -/
-def taggedEdges (ps : Paths) : List (Nat × Nat × Nat × Pt × Pt) :=
-  (ps.zipIdx).flatMap (fun (p, i) => ((edgesOf p).zipIdx).map (fun (e, j) => (i, j, p.length, e.1, e.2)))
-
 /-- is squared distance from `p` to segment `a b` strictly below `r2` (all integers) -/
 def distSegLt (p a b : Pt) (r2 : Int) : Bool :=
   let dx := b.x - a.x; let dy := b.y - a.y
@@ -44,50 +40,75 @@ def distSegLt (p a b : Pt) (r2 : Int) : Bool :=
     let c := px * dy - py * dx
     decide (c * c < r2 * len2)
 
+/-- an edge with the global ids of its two end vertices -/
+structure GEdge where
+  a : Pt
+  b : Pt
+  va : Nat
+  vb : Nat
+  deriving Inhabited
+
+/-- edges and vertices of closed paths followed by open polylines; vertex ids are global -/
+def gEdges (closed opened : Paths) : List GEdge × List (Pt × Nat) := Id.run do
+  let mut es : Array GEdge := #[]
+  let mut vs : Array (Pt × Nat) := #[]
+  let mut base := 0
+  for p in closed do
+    let n := p.length
+    let arr := p.toArray
+    for i in [0:n] do
+      vs := vs.push (arr[i]!, base + i)
+      es := es.push ⟨arr[i]!, arr[(i + 1) % n]!, base + i, base + (i + 1) % n⟩
+    base := base + n
+  for p in opened do
+    let n := p.length
+    let arr := p.toArray
+    for i in [0:n] do
+      vs := vs.push (arr[i]!, base + i)
+      if i + 1 < n then es := es.push ⟨arr[i]!, arr[i + 1]!, base + i, base + i + 1⟩
+    base := base + n
+  return (es.toList, vs.toList)
+
 /-- General position (C01's quantifier): every vertex is ≥ 3 units from every edge it is not an end point of,
-and every point where two non-adjacent edges meet is ≥ 3 units from every third edge. Returns a reason on failure. -/
-def notGeneralPosition (all : Paths) : Option String := Id.run do
-  let es := taggedEdges all
+and every point where two edges without a common end vertex meet is ≥ 3 units from every third edge.
+Returns a reason on failure. -/
+def notGeneralPositionG (closed opened : Paths) : Option String := Id.run do
+  for p in closed do
+    if p.length < 3 then return some "closed path with fewer than 3 vertices"
+  for p in opened do
+    if p.length < 2 then return some "open path with fewer than 2 vertices"
+  let (es, vs) := gEdges closed opened
   let arr := es.toArray
-  -- degenerate paths
-  for p in all do
-    if p.length < 3 then return some "path with fewer than 3 vertices"
-  -- vertices against non-incident edges
-  for (i, j, n, a, _) in es do
-    -- vertex `a` is the start of edge j and the end of edge (j-1) mod n of path i
-    for (i', j', _, c, d) in es do
-      let incident := i = i' ∧ (j' = j ∨ (j' + 1) % n = j)
-      if !incident then
-        if distSegLt a c d 9 then return some s!"vertex {a} within 3 of an edge"
-  -- pairwise crossings against third edges
+  for (v, id) in vs do
+    for e in es do
+      if e.va ≠ id ∧ e.vb ≠ id then
+        if distSegLt v e.a e.b 9 then return some s!"vertex {v} within 3 of an edge"
   let m := arr.size
   for u in [0:m] do
     for v in [u+1:m] do
-      let (i1, j1, n1, a, b) := arr[u]!
-      let (i2, j2, _, c, d) := arr[v]!
-      let adjacent := i1 = i2 ∧ ((j1 + 1) % n1 = j2 ∨ (j2 + 1) % n1 = j1)
-      if adjacent then continue
-      -- intersection of segments a b and c d
+      let e1 := arr[u]!
+      let e2 := arr[v]!
+      if e1.va = e2.va ∨ e1.va = e2.vb ∨ e1.vb = e2.va ∨ e1.vb = e2.vb then continue
+      let a := e1.a; let b := e1.b; let c := e2.a; let d := e2.b
       let d1x := b.x - a.x; let d1y := b.y - a.y
       let d2x := d.x - c.x; let d2y := d.y - c.y
       let den := d1x * d2y - d1y * d2x
-      if den = 0 then
-        -- parallel: collinear overlap is caught by the vertex test; nothing to do
-        continue
+      if den = 0 then continue   -- parallel: a collinear overlap is caught by the vertex test
       let tn := (c.x - a.x) * d2y - (c.y - a.y) * d2x
       let un := (c.x - a.x) * d1y - (c.y - a.y) * d1x
       let (tn, un, den) := if den < 0 then (-tn, -un, -den) else (tn, un, den)
       if tn < 0 ∨ tn > den ∨ un < 0 ∨ un > den then continue
-      -- crossing point X = a + (tn/den) d1 ; scaled by den
-      let X : Pt := ⟨a.x * den + tn * d1x, a.y * den + tn * d1y⟩
+      let X : Pt := ⟨a.x * den + tn * d1x, a.y * den + tn * d1y⟩   -- crossing point scaled by den
       for w in [0:m] do
         if w = u ∨ w = v then continue
-        let (_, _, _, e, f) := arr[w]!
-        let es : Pt := ⟨e.x * den, e.y * den⟩
-        let fs : Pt := ⟨f.x * den, f.y * den⟩
+        let e3 := arr[w]!
+        let es : Pt := ⟨e3.a.x * den, e3.a.y * den⟩
+        let fs : Pt := ⟨e3.b.x * den, e3.b.y * den⟩
         if distSegLt X es fs (9 * den * den) then
           return some s!"crossing of edges {u},{v} within 3 of edge {w}"
   return none
+
+def notGeneralPosition (all : Paths) : Option String := notGeneralPositionG all []
 
 structure Sol where
   ct : ClipType
